@@ -296,8 +296,11 @@ Fixpoint input_leaf (fuel : nat) (n : string) : icoercer :=
                         | None =>
                             match in_default f with
                             | Some d =>
+                                (* an invalid default (UNDEFINED_VALUE) is a coercion error of the field *)
                                 bind (wrap_literal ws (literal_leaf fuel' leafn) [] false d)
-                                     (fun dv => Ok (in_name f, IRes (dv, [])))
+                                     (fun dv => if is_undef dv
+                                                then Ok (in_name f, IRes (PNone, [(EInvalidDefault, path ++ [KName (in_name f)])]))
+                                                else Ok (in_name f, IRes (dv, [])))
                             | None =>
                                 if is_non_null (in_type f)
                                 then Ok (in_name f, IRes (PNone, [(EFieldRequired, path ++ [KName (in_name f)])]))
